@@ -96,7 +96,8 @@ X1 == VI(1, 0, 0)  Y1 == VI(0, 1, 0)  Z1 == VI(0, 0, 1)
 NQ(t) == CASE t = "pin" -> 1 [] t = "slider" -> 1 [] t = "weld" -> 0 [] t = "universal" -> 2 [] t = "cylinder" -> 2
            [] t = "bendstretch" -> 2 [] t = "planar" -> 3 [] t = "translation" -> 3 [] t = "gimbal" -> 3
            [] t = "bushing" -> 6 [] t = "ball" -> 4 [] t = "free" -> 7 [] t = "balle" -> 3 [] t = "freee" -> 6 [] t = "euler5" -> 5 [] t = "spherical" -> 3 [] t = "ellipsoid" -> 4 [] t = "ellipsoide" -> 3
-NU(t) == CASE t = "ball" -> 3 [] t = "free" -> 6 [] t = "ellipsoid" -> 3 [] OTHER -> NQ(t)
+           [] t = "lineori" -> 4 [] t = "lineorie" -> 3 [] t = "freeline" -> 7 [] t = "freelinee" -> 6
+NU(t) == CASE t = "ball" -> 3 [] t = "free" -> 6 [] t = "ellipsoid" -> 3 [] t \in {"lineori", "lineorie"} -> 2 [] t \in {"freeline", "freelinee"} -> 5 [] OTHER -> NQ(t)
 
 \* opt: the mobilizer's construction options (SphericalCoords offsets / signs / radial axis, Ellipsoid radii); unused otherwise
 Def(t, qq, uu, ud, opt) ==
@@ -169,6 +170,19 @@ Def(t, qq, uu, ud, opt) ==
              w == V3(U(1), U(2), U(3))  aw == V3(A(1), A(2), A(3))
              nd == Cross(w, n)
          IN [R |-> Rm, p |-> S(n), w |-> w, v |-> S(nd), aw |-> aw, av |-> S(VAdd(Cross(aw, n), Cross(w, nd)))]
+    [] t \in {"lineori", "lineorie", "freeline", "freelinee"} ->
+         \* orientation as for Ball (quaternion, or x-y-z angles with the Euler option); only two rotational speeds: the x and y measure
+         \* numbers of w_FM EXPRESSED IN M (no spin about Mz); FreeLine adds the translation and v_FM in F
+         LET eul == t \in {"lineorie", "freelinee"}  fr == t \in {"freeline", "freelinee"}
+             Rm == IF eul THEN MM(MM(RotA("x", qq[1]), RotA("y", qq[2])), RotA("z", qq[3]))
+                   ELSE QuatRot(QC(qq[1]), QC(qq[2]), QC(qq[3]), QC(qq[4]))
+             n0 == IF eul THEN 3 ELSE 4
+         IN [R |-> Rm,
+             p |-> IF fr THEN V3(Lin(qq[n0 + 1]), Lin(qq[n0 + 2]), Lin(qq[n0 + 3])) ELSE VZero,
+             w |-> MV(Rm, V3(U(1), U(2), Zero)),
+             v |-> IF fr THEN V3(U(3), U(4), U(5)) ELSE VZero,
+             aw |-> MV(Rm, V3(A(1), A(2), Zero)),       \* d/dt [R (u1,u2,0)] = R (ud1,ud2,0) + w x w
+             av |-> IF fr THEN V3(A(3), A(4), A(5)) ELSE VZero]
     [] t \in {"balle", "freee"} ->
          \* Ball / Free with the "use Euler angles" modelling option: orientation by body-fixed x-y-z angles as for a Gimbal,
          \* but the speeds keep their meaning: u = w_FM in F (and v_FM in F)
@@ -316,6 +330,9 @@ BuildR(i, Hd, App, acc) == IF i = 0 THEN acc
 \*            Ground): equal and opposite forces along the line between the points -- f d on point 1, -f d on point 2, d the unit
 \*            vector from 1 to 2, f = k (x - x0), c xdot, -force respectively.  The unit vector needs a square root: the spec delivers the
 \*            exact ingredients (p, p . pdot, the two lever arms) and the checker finishes; these elements are left out of the exact sums
+\*   "cable"  CableSpring along a CablePath through points fixed on bodies (origin, via points -- some disabled --, termination): a
+\*            uniform tension acts along every straight segment between consecutive active points; the spec delivers the exact
+\*            position, velocity and lever arm of every point, the checker finishes lengths and unit vectors (square roots)
 \* an element with on = 0 is disabled and contributes nothing
 Eval(dyn, ud, F, q2, u2, tasks, cons, felems, felems2) ==
   LET X == TLCEval(Poses)
@@ -393,7 +410,13 @@ Eval(dyn, ud, F, q2, u2, tasks, cons, felems, felems2) ==
                 IN [p |-> pp, pv |-> Dot(pp, pd), r1 |-> r1, r2 |-> r2, o1 |-> BodyP(e.b), o2 |-> BodyP(e.b2),
                     v1 |-> VAdd(B1.v, Cross(B1.w, r1)), v2 |-> VAdd(B2.v, Cross(B2.w, r2))]
               ELSE [p |-> VZero, pv |-> Zero, r1 |-> VZero, r2 |-> VZero, o1 |-> VZero, o2 |-> VZero, v1 |-> VZero, v2 |-> VZero]
+            CablePts(e) ==
+              IF e.type = "cable" THEN
+                [i \in 1..Len(e.pts) |-> LET pt == e.pts[i]  B == BodyK(Vu, pt.b)  r == MV(BodyR(pt.b), IV3(pt.st)) IN
+                                          [p |-> VAdd(BodyP(pt.b), r), v |-> VAdd(B.v, Cross(B.w, r)), r |-> r]]
+              ELSE <<>>
         IN [twopt |-> [k \in 1..NF |-> TwoPt(FL[k])],
+            cable |-> [k \in 1..NF |-> CablePts(FL[k])],
             body |-> [b \in 1..N |-> LET W == [k \in 1..NF |-> BodyW(FL[k], b)] IN
                                       [t |-> SumVS(TLCEval([k \in 1..NF |-> W[k].t]), NF), f |-> SumVS(TLCEval([k \in 1..NF |-> W[k].f]), NF)]],
             mob |-> [j \in 1..ND |-> SumRS(TLCEval([k \in 1..NF |-> MobF(FL[k], j)]), NF)],
@@ -496,8 +519,8 @@ Eval(dyn, ud, F, q2, u2, tasks, cons, felems, felems2) ==
       reactF |-> IF dyn THEN [b \in 1..N |-> LET w == WShift(RO[b], X[b].pF) IN [t |-> VNeg(w.t), f |-> VNeg(w.f)]] ELSE <<>>,
       \* pose and velocity of M in F (expressed in F) for the coordinates q2 and speeds u2: what a mobilizer fitted to
       \* them must reproduce
-      forces |-> [body |-> FZ1.body, mob |-> FZ1.mob, pe2 |-> FZ1.pe2, power |-> FZ1.power, twopt |-> FZ1.twopt],
-      forces2 |-> [body |-> FZ2.body, mob |-> FZ2.mob, pe2 |-> FZ2.pe2, power |-> FZ2.power, twopt |-> FZ2.twopt],
+      forces |-> [body |-> FZ1.body, mob |-> FZ1.mob, pe2 |-> FZ1.pe2, power |-> FZ1.power, twopt |-> FZ1.twopt, cable |-> FZ1.cable],
+      forces2 |-> [body |-> FZ2.body, mob |-> FZ2.mob, pe2 |-> FZ2.pe2, power |-> FZ2.power, twopt |-> FZ2.twopt, cable |-> FZ2.cable],
       forceLaws |-> FZ1.powerIsMinusDPE /\ FZ1.dampersDissipate /\ FZ2.powerIsMinusDPE /\ FZ2.dampersDissipate,
       cons |-> [k \in 1..NC |-> [perr |-> ConsAt0[k].perr, verr |-> ConsAt0[k].verr, aerr0 |-> ConsAt0[k].aerr, aerr |-> ConsAtUd[k].aerr,
                                   verrU2 |-> ConsAtU2[k].verr, aerr0U2 |-> ConsAtU2[k].aerr]],
